@@ -169,6 +169,8 @@ def judge(mk, sc):
     # an instantiated tdm template is still the same tdm program (type, p-arrays, references)
     has_param_array = any(it[0] == "arr" and any(x[0] == "par" for row in it[4] for x in row) for it in sc["items"])
     if m.params and not has_param_array:
+        if len(text) % 2 == 0:
+            common.dumps(p)     # in half of the cases the template has been serialised before it is instantiated
         try:
             inst = p(**{n: 0.5 for n in m.params})
         except Exception as e:  # noqa
